@@ -217,7 +217,7 @@ def g_needs(nd):
 
 
 def g_components(c, with_comment=False):
-    data = "[" + ";\n    ".join(g_energy(e, with_comment) for e in c["data"]) + "]"
+    data = "([" + ";\n    ".join(g_energy(e, with_comment) for e in c["data"]) + "] : list Energy)"
     return "(mkComponents [] %s %s)" % (data, g_needs(c["needs"]))
 
 
@@ -228,7 +228,7 @@ def g_factor(f):
 
 
 def g_factors(fl):
-    return "[" + ";\n    ".join(g_factor(f) for f in fl) + "]"
+    return "([" + ";\n    ".join(g_factor(f) for f in fl) + "] : list Factor)"
 
 
 def finite_components(c):
